@@ -1201,6 +1201,51 @@ def _file_layer(ctx) -> list[Inst]:
                     why = f"'{stmt_text(c, 70)}' does not write the dictionary parameter itself"
             insts.append(Inst(RULE, fname, construct, 'ok' if ok else 'unproven', msg=why, file=rel,
                               line=f.node.lineno, props=props))
+            # the text the library produced is written as it is: an edit of the serialised TEXT (regex substitution,
+            # replace, strip of lines ...) cannot tell the inside of a string value from the structure around it
+            parent = {}
+            for x in ast.walk(f.node):
+                for ch in ast.iter_child_nodes(x):
+                    parent[id(ch)] = x
+            for c in libcalls:
+                to_text = c.func.attr == 'dumps' or (c.func.attr in ('dump', 'safe_dump') and len(c.args) < 2
+                                                      and not any(k.arg == 'stream' for k in c.keywords))
+                if not to_text:
+                    continue
+                construct = f'(viii) {fname}: the serialised text is written unedited'
+                uses = []       # (expression that holds the text, its parent)
+                par = parent.get(id(c))
+                if isinstance(par, ast.Assign) and len(par.targets) == 1 and isinstance(par.targets[0], ast.Name):
+                    v = par.targets[0].id
+                    for x in own_nodes(f.node):
+                        if isinstance(x, ast.Name) and x.id == v and isinstance(x.ctx, ast.Load):
+                            uses.append((x, parent.get(id(x))))
+                else:
+                    uses.append((c, par))
+                verdict, msg, line = 'ok', '', c.lineno
+                for (e, pe) in uses:
+                    if isinstance(pe, ast.Call) and e in pe.args and isinstance(pe.func, ast.Attribute) \
+                            and pe.func.attr in ('write', 'write_text', 'debug', 'info'):
+                        continue
+                    if isinstance(pe, ast.Call) and isinstance(pe.func, ast.Name) and pe.func.id in ('print', 'len'):
+                        continue
+                    if isinstance(pe, ast.Return):
+                        continue
+                    edit = None
+                    if isinstance(pe, ast.Call) and e in pe.args:
+                        edit = stmt_text(pe.func, 40)
+                    elif isinstance(pe, ast.Attribute) and isinstance(parent.get(id(pe)), ast.Call):
+                        edit = '.' + pe.attr
+                    elif isinstance(pe, ast.Subscript):
+                        edit = 'slicing'
+                    if edit is not None:
+                        verdict, line = 'violation', getattr(pe, 'lineno', c.lineno)
+                        msg = (f"the text returned by {c.func.value.id}.{c.func.attr} goes through '{edit}(...)' before it is "
+                               f"written: a rewrite of the serialised text also hits the inside of string values (names, "
+                               f"extras) that happen to look like the structure it targets - they come back changed")
+                        break
+                    verdict, msg = 'unproven', f"use of the serialised text not recognised: '{stmt_text(pe, 60)}'"
+                insts.append(Inst(RULE, fname, construct, verdict, msg=msg, file=rel, line=line, props=props))
     return insts
 
 
